@@ -14,6 +14,7 @@ mod libi;
 mod logger;
 mod profiles;
 mod refm;
+mod sweeps;
 mod tape;
 mod threads;
 mod world;
